@@ -22,6 +22,7 @@ RULES = {
     'R2': 'DOM order and ALLEXITS in pop; recursion of remove_from_cache',
     'R3': 'sibling agreement insert_outpoints vs OutPointsCache::remove (item classes, +-1, delete at 0, map pairing)',
     'R4': 'WRITERS of OutPointsCache / GenericUnstableBlocks / BlockTree bookkeeping fields',
+    'R5': 'every field of the bookkeeping structures (announced headers, outpoint cache, deltas, tree) is carried across upgrades (= C09.R1 restricted to them)',
 }
 ASSUMPTIONS = []
 UB = 'ic_btc_canister::unstable_blocks::'
@@ -247,3 +248,15 @@ def run(ctx):
     _run_before_plumbing(ctx)
     from rules import plumbing
     plumbing.blocks_enumeration(ctx, 'R2')
+    # R5 (added after seeded change C20-5): the quantifier includes upgrades at any point — every field of the
+    # bookkeeping structures is carried across an upgrade (= C09.R1 restricted to these structures); an index
+    # that is dropped and rebuilt lossily leaves entries nothing prunes any more
+    from sa.engine import SubCtx
+    from rules import c09
+    BK = ('omitted:NextBlockHeaders.', 'omitted:OutPointsCache.', 'omitted:GenericUnstableBlocks.', 'omitted:UtxosDelta.', 'omitted:BlockTree.', 'omitted:TxOutInfo.', 'omitted:IngestingBlock.')
+    c09.r1(SubCtx(ctx, {'R1': 'R5'}, key_filter=lambda k: k.startswith(BK)))
+    cov = c09.coverage(ctx.prog)
+    mine = sorted(a for a in cov if ('omitted:%s.' % a.rsplit('::', 1)[-1]) in BK)
+    full = [a for a in mine if not cov[a]['omitted']]
+    ctx.ok('R5', 'bookkeeping-serialised', '', '%d bookkeeping structures examined, %d of them serialise every field: %s' % (len(mine), len(full), [a.rsplit('::', 1)[-1] for a in full]))
+    ctx.floor('R5', 'bookkeeping structures examined for serialisation coverage', len(mine), 7)
